@@ -287,6 +287,15 @@ SNIPPETS = {
     "content_and_replace": '<i tal:content="a" tal:replace="b">a</i>',
     "case_without_switch": '<i tal:case="1">a</i>',
     "fill_without_use": '<i metal:fill-slot="x">a</i>',
+    # ... also when the element itself uses / extends a macro (a filler
+    # belongs to a macro used by an ANCESTOR)
+    "fill_on_use_element": '<i metal:use-macro="m" metal:fill-slot="x">a</i>',
+    "fill_on_use_element_2": '<i metal:fill-slot="x" metal:use-macro="m">a'
+                             '</i>',
+    "fill_on_extend_element": '<i metal:define-macro="n" metal:extend-macro='
+                              '"m" metal:fill-slot="x">a</i>',
+    "fill_after_closed_use": '<b metal:use-macro="m">u</b><i metal:use-macro='
+                             '"m" metal:fill-slot="x">a</i>',
     "fill_after_extend": '<b metal:extend-macro="m">e</b>'
                          '<i metal:fill-slot="x">a</i>',
     "fill_after_use": '<b metal:use-macro="m">e</b>'
